@@ -76,6 +76,11 @@ def generate(rng: random.Random, tier: str):
                              "nprops": {"p": {"values": gg.rand_array(r2, dt, shape), "missing": gg.rand_mask(r2, n, mp)}},
                              "eprops": {}, "md": {"directed": True}}
                         yield {"kind": "write", "wf": True, "store": "mem", "fmt": fmt, "pre": "fresh", "validate": True, "overwrite": False, **g}
+    # empty graph carrying a var-length property (no element to infer the dtype from)
+    for fmt in (2, 3):
+        yield {"kind": "write", "wf": True, "store": "mem", "fmt": fmt, "pre": "fresh", "validate": True, "overwrite": False,
+               "nids": {"dtype": "uint8", "shape": [0], "data": []}, "eids": {"dtype": "uint8", "shape": [0, 2], "data": []},
+               "nprops": {"poly": {"values": {"vlen": []}, "missing": None}}, "eprops": {}, "md": {"directed": True}}
     nrand = 500 if tier == "quick" else 6000
     for i in range(nrand):
         g = gg.rand_graph(rng)
